@@ -231,7 +231,7 @@ const knownKey = "peach:interrupt-during-acquire-over-release"
 
 func extraFiles(c *lib.Ctx) (map[string][]byte, error) {
 	out := map[string][]byte{}
-	for _, n := range []string{"Peach.tla", "Each.tla"} {
+	for _, n := range []string{"Peach.tla", "Each.tla", "EachRef.tla"} {
 		b, err := os.ReadFile(filepath.Join(c.SpecDir("Peach"), n))
 		if err != nil {
 			return nil, lib.Infra("%v", err)
